@@ -370,7 +370,12 @@ func newWorld(r *vkit.Run, sink querylog.Interface, yield func()) (*world, error
 	db.Add(mkProfile("pdevnf", true, true, modes[0]), dnf)
 	pdel := mkProfile("pdel", true, true, modes[0])
 	pdel.Deleted = true
-	db.Add(pdel, mkDevice("ddel"))
+	// The deleted profile still lists its device, which can be reached by every
+	// identification method (device ID, linked IP, dedicated IP).
+	ddel := mkDevice("ddel")
+	ddel.LinkedIP = netip.MustParseAddr("203.0.113.9")
+	ddel.DedicatedIPs = []netip.Addr{netip.MustParseAddr("192.0.2.90")}
+	db.Add(pdel, ddel)
 
 	// Client networks.
 	w.geo.AddNet(netip.MustParsePrefix("203.0.113.0/26"), &geoip.Location{Country: "DE", Continent: "EU", ASN: 1111})
@@ -440,7 +445,8 @@ var attributedACs = []string{"dot-sni", "doq-sni", "doh-path", "doh-userinfo", "
 	"dot-humanid", "dns-edns-prl-pass", "dns-edns-grl-allow"}
 var specialACs = []string{"dot-nofilter-prof", "dot-nofilter-dev"}
 var anonACs = []string{"dot-noid", "dot-foreign-sni", "doq-noid", "doh-noid", "dns-noid", "dnscrypt-edns", "dot-unknown-dev",
-	"g2-dot-sni", "g2-dns-edns", "g2-dns-linked", "deleted-prof", "authfail-dot", "authfail-doh-pass", "authfail-doh-nouserinfo"}
+	"g2-dot-sni", "g2-dns-edns", "g2-dns-linked", "deleted-prof", "deleted-prof-dedicated", "deleted-prof-linked", "deleted-prof-edns",
+	"deleted-prof-doh", "authfail-dot", "authfail-doh-pass", "authfail-doh-nouserinfo"}
 var dropACs = []string{"drop-gacc-ip", "drop-gacc-ip-anon", "drop-gacc-host", "drop-gacc-host-anon", "drop-pacc", "drop-grl",
 	"drop-grl-anon", "drop-prl", "drop-unknown-dedicated", "drop-port0", "drop-device-error"}
 
@@ -565,6 +571,18 @@ func (w *world) build(rng *rand.Rand, phase string, idx int, ac string, p *profS
 	case "deleted-prof":
 		use("dot")
 		sni("ddel")
+	case "deleted-prof-dedicated":
+		use("dnsif")
+		c.local = netip.AddrPortFrom(netip.MustParseAddr("192.0.2.90"), 53)
+	case "deleted-prof-linked":
+		use("dns53")
+		c.remote = netip.AddrPortFrom(netip.MustParseAddr("203.0.113.9"), c.remote.Port())
+	case "deleted-prof-edns":
+		use("dns53")
+		c.EDNSID = "ddel"
+	case "deleted-prof-doh":
+		use("doh")
+		c.Path = "/dns-query/ddel"
 	case "authfail-dot":
 		use("dot")
 		sni(p.DevPw)
@@ -881,6 +899,7 @@ func (w *world) run(c *caseSpec, rng *rand.Rand) *judged {
 	}
 	if !c.Attributed {
 		r.Bucket("p1.anon_served", 1)
+		r.Bucket("p1.anon."+c.AC, 1)
 		if len(logs) > 0 {
 			r.Violation("anon-logged:"+c.AC, "a query that is not attributed to a profile produced a query-log entry", wit(nil))
 		}
@@ -1647,6 +1666,9 @@ func TestCheck(t *testing.T) {
 	r.Require("p1.entries_checked", 800)
 	r.Require("p1.bill_records", 1500)
 	r.Require("p1.anon_served", 400)
+	for _, ac := range anonACs {
+		r.Require("p1.anon."+ac, 20)
+	}
 	r.Require("p1.qlog_suppressed", 500)
 	r.Require("p1.ip_suppressed", 300)
 	r.Require("p1.ip_logged", 300)
@@ -1672,13 +1694,20 @@ func TestCheck(t *testing.T) {
 		"list-block-not-enabled", "list-allow", "custom", "custom-of-other-profile", "unowned"} {
 		r.Require("p3."+cl, 12)
 	}
-	// Part 4: entries and suppressions seen before and after the restart.
+	// Part 4: entries and suppressions seen before and after the restart, also
+	// for profiles changed or deleted while the full synchronisation was in flight.
 	for _, ph := range []string{"before-restart", "after-restart"} {
-		r.Require("p4."+ph+".ip_suppressed", 12)
-		r.Require("p4."+ph+".ip_logged", 12)
-		r.Require("p4."+ph+".qlog_suppressed", 24)
+		r.Require("p4."+ph+".ip_suppressed", 24)
+		r.Require("p4."+ph+".ip_logged", 24)
+		r.Require("p4."+ph+".qlog_suppressed", 48)
+		r.Require("p4."+ph+".changed.qlog_suppressed", 12)
+		r.Require("p4."+ph+".changed.ip_suppressed", 12)
+		for _, mode := range []string{"dot-sni", "doh-path", "dns-dedicated"} {
+			r.Require("p4."+ph+".deleted."+mode, 8)
+		}
 	}
-	r.Require("p4.post_restart_sync_calls", 1)
+	r.Require("p4.backend_full_syncs", 1)
+	r.Require("p4.backend_incremental_syncs", 2)
 	r.Require("p3.svc-later-of-several", 60)
 	r.Require("p3.lines_checked", 400)
 	r.Require("e2e.lines_matched", 800)
